@@ -7,6 +7,7 @@ import (
 	"github.com/cnotch/ipchub/network/socket/buffered"
 
 	. "vh/lib"
+	"vh/transports"
 )
 
 // scripted socket: records everything written
@@ -50,6 +51,6 @@ func bconn(c Val) Val {
 	return L(outs...)
 }
 
-var commands = map[string]func(Val) Val{"C13_bconn": bconn}
+var commands = map[string]func(Val) Val{"C13_bconn": bconn, "C13_two": transports.RunTwoTCP}
 
 func main() { Main(commands) }
